@@ -23,10 +23,10 @@ type Report struct {
 	Findings []Finding
 	// coverage counters
 	Jobs, Forks, Invocations, DepEdges, FileChecks, IntraForkEdges int
-	DepKinds                                                      map[string]int
-	Disabled                                                      int
-	TopLeaves                                                     int
-	ChunkChecks                                                   int
+	DepKinds                                                       map[string]int
+	Disabled                                                       int
+	TopLeaves                                                      int
+	ChunkChecks                                                    int
 }
 
 func (r *Report) add(prop, sig, what string, detail interface{}) {
@@ -441,8 +441,10 @@ func lastEnd(f *Fork) (int64, *Job, *Job) {
 	var best *Job
 	var t int64
 	for _, j := range forkJobs(f) {
+		// finished = the last attempt that started also ended (an earlier
+		// attempt that died and was retried has a start without an end)
 		e := j.LastEnd()
-		if e == nil || len(j.Ends) < len(j.Starts) {
+		if ls := j.LastStart(); e == nil || (ls != nil && e.T < ls.T) {
 			return 0, nil, j
 		}
 		if best == nil || e.T > t {
